@@ -3,6 +3,7 @@ import AwsVerif.Proofs.C12.Decl
 set_option linter.unusedSimpArgs false
 /-! `s_advance_to_closing_tag`: no fault, the cursor stays a suffix window and only moves forward. -/
 namespace AwsVerif.Xml
+open AwsVerif.Gen
 
 theorem closeInner_ok (doc : Bytes) (hH : doc.length ≤ HALF) (openPat : Bytes) (cp closeLen : Nat)
     (hcl : openPat.length ≤ closeLen) (hcl1 : 1 ≤ closeLen) (hcp : cp + closeLen ≤ doc.length) :
@@ -109,19 +110,28 @@ theorem advanceToClosingTag_ok (doc : Bytes) (hH : doc.length ≤ HALF) (st : PS
   · simp only [he, if_true]
     exact ⟨_, rfl, ⟨hs, Nat.le_refl _, rfl, rfl, rfl, trivial, by intro _ h; simp [he] at h⟩⟩
   · simp only [he, Bool.false_eq_true, if_false, pure, Except.pure, bind, Except.bind]
-    by_cases h1 : node.name.len + NODE_CLOSE_OVERHEAD > node.docAtBody.len
-    · simp only [h1, if_true]
+    cases h1 : XmlConsts.closingTagCannotFit (node.name.len + XmlConsts.closingOverhead) node.docAtBody.len with
+    | true =>
+      simp only [if_true]
       exact ⟨_, rfl, ⟨hs, Nat.le_refl _, rfl, rfl, rfl, trivial, by intro h; simp at h⟩⟩
-    · simp only [h1, if_false]
-      by_cases h2 : MAX_NAME_LEN + NODE_CLOSE_OVERHEAD < node.name.len + NODE_CLOSE_OVERHEAD
-      · simp only [h2, if_true]
+    | false =>
+      simp only [Bool.false_eq_true, if_false]
+      cases h2 : XmlConsts.nameTooLong (node.name.len + XmlConsts.closingOverhead) with
+      | true =>
+        simp only [if_true]
         exact ⟨_, rfl, ⟨hs, Nat.le_refl _, rfl, rfl, rfl, trivial, by intro h; simp at h⟩⟩
-      · simp only [h2, if_false]
+      | false =>
+        simp only [Bool.false_eq_true, if_false]
         rw [slice_ok hn]
         simp only
         have hseg : (doc.drop node.name.off).take node.name.len = seg doc node.name.off (node.name.off + node.name.len) := by
           simp [seg]
         rw [hseg]
+        -- the name passed the length test, so both compare buffers hold their complete pattern
+        have hsl : (seg doc node.name.off (node.name.off + node.name.len)).length = node.name.len := by
+          rw [seg_length hn]; omega
+        obtain ⟨hpo, hpc⟩ := patterns_fit (nm := seg doc node.name.off (node.name.off + node.name.len)) (by rw [hsl]; exact h2)
+        rw [hpo, hpc]
         obtain ⟨⟨cur', r, le⟩, hco, hs', hmono, hp⟩ := closeOuter_ok doc hH (seg doc node.name.off (node.name.off + node.name.len))
           (st.cur.len + 1) st.cur 1 st.lastErr hs (by omega)
         simp only [openPatOf, closePatOf] at hco
@@ -137,6 +147,6 @@ theorem advanceToClosingTag_ok (doc : Bytes) (hH : doc.length ≤ HALF) (st : PS
             simp only [List.length_drop] at this
             omega
           · intro _ _
-            refine ⟨by simp only [MAX_NAME_LEN, NODE_CLOSE_OVERHEAD] at h2 ⊢; omega, cp, rfl, a, c, rfl⟩
+            exact ⟨(nameTooLong_iff _).mp h2, cp, rfl, a, c, rfl⟩
 
 end AwsVerif.Xml
